@@ -56,18 +56,19 @@ Qed.
 Lemma delete_key_db s d k d' :
   get_db (delete_key s d k) d' = if decide (d = d') then delete k (get_db s d) else get_db s d'.
 Proof.
-  unfold delete_key, get_db; simpl.
-  destruct (decide (d = d')) as [->|Hne].
-  - by rewrite lookup_insert.
-  - by rewrite lookup_insert_ne.
+  unfold delete_key. destruct (get_db s d !! k) as [e|] eqn:He.
+  - unfold get_db; simpl. destruct (decide (d = d')) as [->|Hne].
+    + by rewrite lookup_insert.
+    + by rewrite lookup_insert_ne.
+  - destruct (decide (d = d')) as [<-|Hne]; [|done]. by rewrite delete_notin.
 Qed.
 
 Lemma delete_key_now s d k : st_now (delete_key s d k) = st_now s.
-Proof. done. Qed.
+Proof. unfold delete_key. by destruct (get_db s d !! k). Qed.
 Lemma delete_key_maxmem s d k : st_maxmem (delete_key s d k) = st_maxmem s.
-Proof. done. Qed.
+Proof. unfold delete_key. by destruct (get_db s d !! k). Qed.
 Lemma delete_key_noevict s d k : st_noevict (delete_key s d k) = st_noevict s.
-Proof. done. Qed.
+Proof. unfold delete_key. by destruct (get_db s d !! k). Qed.
 
 Lemma delete_key_lentry s d k d' k' :
   lentry (delete_key s d k) d' k' =
@@ -85,7 +86,7 @@ Qed.
 Lemma delete_invisible_same_view s d k :
   lentry s d k = None -> same_view s (delete_key s d k).
 Proof.
-  intros Hk. repeat split.
+  intros Hk. split; [|split; [apply delete_key_now|split; [apply delete_key_maxmem|apply delete_key_noevict]]].
   intros d' k'. rewrite delete_key_lentry. destruct (decide _) as [[-> ->]|]; [by rewrite Hk|done].
 Qed.
 
@@ -135,7 +136,8 @@ Lemma set_value1_fields s d k v :
   st_now (set_value1 s d k v) = st_now s /\ st_maxmem (set_value1 s d k v) = st_maxmem s /\
   st_noevict (set_value1 s d k v) = st_noevict s.
 Proof.
-  unfold set_value1. destruct (get_db s d !! k) as [e|]; [destruct (expired _ e)|]; done.
+  unfold set_value1. destruct (get_db s d !! k) as [e|]; [destruct (expired _ e)|]; simpl;
+    rewrite ?delete_key_now, ?delete_key_maxmem, ?delete_key_noevict; done.
 Qed.
 
 Definition dl_of (o : option entry) : option Z := match o with Some e => e_dl e | None => None end.
@@ -149,7 +151,7 @@ Proof.
              | Some e => if expired (st_now s) e then delete_key s d k else s
              | None => s end).
   assert (Hnow : st_now s1 = st_now s).
-  { subst s1. destruct (get_db s d !! k) as [e|]; [destruct (expired _ e)|]; done. }
+  { subst s1. destruct (get_db s d !! k) as [e|]; [destruct (expired _ e)|]; rewrite ?delete_key_now; done. }
   assert (Hs1 : forall d' k', lentry s1 d' k' = lentry s d' k').
   { intros d2 k2. subst s1. destruct (get_db s d !! k) as [e|] eqn:He; [|done].
     destruct (expired (st_now s) e) eqn:Hx; [|done].
